@@ -202,7 +202,7 @@ fn gen(a: &Args) {
     // ---- structured stream: every function x column x grouping over a small domain
     for (ti, t) in [small_domain_table("t"), Table { rows: vec![], ..small_domain_table("t") }, null_table("t")].iter().enumerate() {
         if sut.load(t).is_err() { w.count("setup_failed", 1); continue; }
-        for q in structured_queries(t, a.thorough() || ti == 0, &mut rng) { emit(&mut w, &mut sut, t, &q, "structured"); }
+        for q in structured_queries(t, a.thorough() || ti == 0, &mut rng) { emit(&mut w, &mut sut, t, &q.pruned(), "structured"); }
     }
     // ---- boundary stream: integer sums at the edge of i64, float sums, text extrema
     for (t, q) in boundary_cases() {
@@ -222,7 +222,7 @@ fn gen(a: &Args) {
             continue;
         }
         for _ in 0..per_table {
-            let q = gen_query(&mut rng, &t, &qc);
+            let q = gen_query(&mut rng, &t, &qc).pruned();
             emit(&mut w, &mut sut, &t, &q, stream);
         }
     }
@@ -270,7 +270,7 @@ fn search(a: &Args) {
         let t = gen_table(&mut rng, "t", &cfg);
         if sut.load(&t).is_err() { tried += 1; continue; }
         for _ in 0..30 {
-            let q = gen_query(&mut rng, &t, &qc);
+            let q = gen_query(&mut rng, &t, &qc).pruned();
             tried += 1;
             let out = sut.observe(&t, &q);
             let ok = match (&out, spec_query(&t, &q)) {
